@@ -15,7 +15,9 @@ macro_rules! gproof {
         #[kani::stub(alloc::alloc::dealloc_nonnull, crate::vrt::ghost_dealloc_nn)]
         $(#[$m])*
         fn $name() {
+            unsafe { crate::vrt::G_TRACK = true; }
             $body;
+            unsafe { crate::vrt::G_TRACK = false; }
             kani::cover!(crate::vrt::g_on(), "END");
         }
     };
@@ -32,7 +34,9 @@ macro_rules! gmay {
         $(#[$m])*
         fn $name() {
             kani::cover!(true, "START");
+            unsafe { crate::vrt::G_TRACK = true; }
             $body;
+            unsafe { crate::vrt::G_TRACK = false; }
         }
     };
 }
@@ -48,7 +52,9 @@ macro_rules! gpanic {
         #[kani::stub(alloc::alloc::dealloc_nonnull, crate::vrt::ghost_dealloc_nn)]
         $(#[$m])*
         fn $name() {
+            unsafe { crate::vrt::G_TRACK = true; }
             $body;
+            unsafe { crate::vrt::G_TRACK = false; }
             kani::cover!(true, "RETURNED");
         }
     };
@@ -74,36 +80,23 @@ pub fn ghost_abort() -> ! {
     assert!(crate::vrt::atomic::od_inc(unsafe { OD_N }), "OD-inc at abort: the overflow test must follow a single RMW increment that saw the old count");
     panic!("VRT abort reached")
 }
-pub static mut G_FORBID_ALLOC: bool = false; // obligation "refused before allocating": any alloc() is a failed check
+pub static mut G_FORBID_ALLOC: bool = false;
+pub static mut G_TRACK: bool = false; // native replay: record allocations (set by the harness macros)
+pub static mut G_TABLE_FULL: bool = false; // obligation "refused before allocating": any alloc() is a failed check
 
-pub unsafe fn ghost_alloc(layout: Layout) -> *mut u8 {
-    extern "Rust" {
-        fn __rust_alloc(size: usize, align: usize) -> *mut u8;
+/// bookkeeping shared by the Kani stubs and by the native replay allocator
+unsafe fn g_record_alloc(p: *mut u8, layout: Layout) {
+    if G_N < GN {
+        G_PTR[G_N] = p as usize;
+        G_SIZE[G_N] = layout.size();
+        G_ALIGN[G_N] = layout.align();
+        G_LIVE[G_N] = true;
+        G_N += 1;
+    } else {
+        G_TABLE_FULL = true;
     }
-    assert!(!G_FORBID_ALLOC, "VRT allocation requested although the request must be refused first");
-    G_ALLOCS += 1;
-    G_ON = true; // set here, not in the harness: a native replay (no stubs) skips allocator clauses
-    if G_FAIL_AT != 0 && G_ALLOCS == G_FAIL_AT {
-        return core::ptr::null_mut();
-    }
-    let p = __rust_alloc(layout.size(), layout.align());
-    kani::assume(!p.is_null());
-    // Kani's malloc model has no alignment: the allocator returning memory aligned as requested
-    // is an assumption of every property (DESIGN §8.5).
-    kani::assume(p as usize % layout.align() == 0);
-    assert!(G_N < GN, "ghost allocator table full");
-    G_PTR[G_N] = p as usize;
-    G_SIZE[G_N] = layout.size();
-    G_ALIGN[G_N] = layout.align();
-    G_LIVE[G_N] = true;
-    G_N += 1;
-    p
 }
-
-pub unsafe fn ghost_dealloc(ptr: *mut u8, layout: Layout) {
-    extern "Rust" {
-        fn __rust_dealloc(ptr: *mut u8, size: usize, align: usize);
-    }
+unsafe fn g_record_dealloc(ptr: *mut u8, layout: Layout) {
     G_DEALLOCS += 1;
     crate::vrt::atomic::push(crate::vrt::atomic::K::Dealloc, 0, ptr as usize);
     let mut ok = false;
@@ -129,8 +122,62 @@ pub unsafe fn ghost_dealloc(ptr: *mut u8, layout: Layout) {
     slot!(4);
     slot!(5);
     G_OK = G_OK && ok;
+}
+
+pub unsafe fn ghost_alloc(layout: Layout) -> *mut u8 {
+    extern "Rust" {
+        fn __rust_alloc(size: usize, align: usize) -> *mut u8;
+    }
+    assert!(!G_FORBID_ALLOC, "VRT allocation requested although the request must be refused first");
+    G_ALLOCS += 1;
+    G_ON = true; // set here, not in the harness: a native replay without tracking skips allocator clauses
+    if G_FAIL_AT != 0 && G_ALLOCS == G_FAIL_AT {
+        return core::ptr::null_mut();
+    }
+    let p = __rust_alloc(layout.size(), layout.align());
+    kani::assume(!p.is_null());
+    // Kani's malloc model has no alignment: the allocator returning memory aligned as requested
+    // is an assumption of every property (DESIGN §8.5).
+    kani::assume(p as usize % layout.align() == 0);
+    assert!(G_N < GN, "ghost allocator table full");
+    g_record_alloc(p, layout);
+    p
+}
+
+pub unsafe fn ghost_dealloc(ptr: *mut u8, layout: Layout) {
+    extern "Rust" {
+        fn __rust_dealloc(ptr: *mut u8, size: usize, align: usize);
+    }
+    g_record_dealloc(ptr, layout);
     __rust_dealloc(ptr, layout.size(), layout.align());
 }
+
+// Native replay (cargo kani playback builds the crate with cfg(kani) AND cfg(test), no stubs): the
+// same bookkeeping sits behind a real #[global_allocator], switched on by the harness macros, so a
+// counterexample about the allocator (leak, double free, wrong layout) reproduces natively too.
+#[cfg(all(test, feature = "std"))]
+pub struct NativeGhost;
+#[cfg(all(test, feature = "std"))]
+unsafe impl core::alloc::GlobalAlloc for NativeGhost {
+    unsafe fn alloc(&self, layout: Layout) -> *mut u8 {
+        let p = std::alloc::System.alloc(layout);
+        if G_TRACK && !p.is_null() {
+            G_ALLOCS += 1;
+            G_ON = true;
+            g_record_alloc(p, layout);
+        }
+        p
+    }
+    unsafe fn dealloc(&self, ptr: *mut u8, layout: Layout) {
+        if G_TRACK {
+            g_record_dealloc(ptr, layout);
+        }
+        std::alloc::System.dealloc(ptr, layout)
+    }
+}
+#[cfg(all(test, feature = "std"))]
+#[global_allocator]
+static NATIVE_GHOST: NativeGhost = NativeGhost;
 
 pub unsafe fn ghost_dealloc_nn(ptr: core::ptr::NonNull<u8>, layout: Layout) {
     ghost_dealloc(ptr.as_ptr(), layout)
@@ -147,6 +194,7 @@ pub fn ghost_reset() {
         G_OK = true;
         G_FAIL_AT = 0;
         G_FORBID_ALLOC = false;
+        G_TABLE_FULL = false;
         G_LIVE = [false; GN];
         DROPS = 0;
         CLONES = 0;
